@@ -228,7 +228,7 @@ class Gen:
         if c and t.chance(0.5):
             return t.choice(c)
         lets = [k for k, v in sorted(self.lets.items()) if k not in params and isinstance(v, int) and v >= 0]
-        if lets and t.chance(max(0.2, self.cfg["p_let_use"])):
+        if lets and t.chance(max(0.5 if getattr(self, "in_macro", False) else 0.2, self.cfg["p_let_use"])):
             return t.choice(lets)
         return t.choice(self.cfg["loop_counts"])
 
@@ -493,6 +493,7 @@ class Gen:
             if kd == "r":
                 info[p]["minsize"] = t.randint(1, 2)
         role = "bracket" if (self.exec and t.chance(0.3)) else "gates"
+        self.in_macro = True
         if not self.exec:
             body_items = self.general_items(info, 1, "seq", False, False, 3)
             body = {"k": "seq", "body": body_items}
@@ -517,6 +518,7 @@ class Gen:
         for p in pnames:
             if info[p]["kind"] == "i" and not info[p].get("lens"):
                 info[p]["lens"] = [1]
+        self.in_macro = False
         m = {"name": name, "params": pnames, "body": body}
         return m, {"name": name, "params": pnames, "info": info, "role": role}
 
